@@ -32,6 +32,9 @@ def cells(tier):
     out.append(cell("bounded1 c1 r2 aput,aput join", consumers=1, rounds=2, maxsize=1, actors=[[A, A], [J]]))
     out.append(cell("bounded1 c2 r1 aput|aput|aput join cancel0", consumers=2, rounds=1, maxsize=1, actors=[[A], [A], [A], [J], [["cancel", 0]]]))
     out.append(cell("bounded1 c1 r3 aput,aput,aput cancel_prod1 join", consumers=1, rounds=3, maxsize=1, actors=[[A, A, A], [["cancel_prod", 1]], [J]]))
+    out.append(cell("bounded1 c1 r2 aput,aput join|join (two callers of join, refill in between)", consumers=1, rounds=2, maxsize=1,
+                    actors=[[A, A], [J], [J]]))
+    out.append(cell("c2 r1 put|put join|join", consumers=2, rounds=1, actors=[[P], [P], [J], [J]]))
     if not q:
         out.append(cell("T c2 r2 put,put|put join cancel0 cancel1", consumers=2, rounds=2,
                         actors=[[P, P], [P], [J], [["cancel", 0]], [["cancel", 1]]]))
